@@ -435,7 +435,11 @@ where
         .fitness()
         .nth(idx)
         .zip(b.fitness().nth(idx))
-        .map(|(a, b)| (a - b).abs() / a.abs().max(b.abs()))
+        .map(|(a, b)| {
+            // NOTE divide first: the difference of huge values with opposite signs overflows
+            let max = a.abs().max(b.abs());
+            (a / max - b / max).abs()
+        })
         .expect("cannot get fitness by idx");
 
     value * sign * priority_amplifier
